@@ -63,7 +63,9 @@ def color_spec(rng):
         return (('c', sgr.NAMES.index(n)), n)
     if k < 0.8:
         v = rng.randint(0, 255)
-        return (('c', v), str(v))
+        # (a number may be written with a sign or with an underscore between its digits, as in source code)
+        text = rng.choice([str(v), str(v), str(v), "+%d" % v, str(v) if v < 10 else str(v)[0] + "_" + str(v)[1:]])
+        return (('c', v), text)
     if k < 0.9:
         r, g, b = [rng.randint(0, 5) for _ in range(3)]
         s = "(%d,%d,%d)" % (r, g, b) if rng.random() < 0.7 else "( %d, %d ,%d )" % (r, g, b)
@@ -86,7 +88,8 @@ def render_descr(rng, parent, fgs, bgs, mods):
             bgs = bgs.strip()
     modstr = ",".join((e if v else "no_" + e) for e, v in mods.items())
     if rng.random() < 0.2 and modstr:
-        modstr = modstr.replace(",", ", ")
+        # (blanks of any kind around the names: a plain one, a no-break space pasted from a document, a form feed)
+        modstr = modstr.replace(",", rng.choice([", ", ", ", ",\xa0", "\u3000, ", ",\x0c ", " ,\u2028"]))
     both_inherit = fgs == "" and bgs == ""
     if bgs == "" and rng.random() < 0.5:
         colstr = fgs
